@@ -57,6 +57,21 @@ type Exec struct {
 	timers    []*Timer
 	PanicText string
 	schedule  []string // human readable schedule: thread names at choice points
+	seq       bool     // inside Sequential: scheduling switched off (see Sequential)
+}
+
+// Sequential runs f in the calling goroutine with scheduling switched off:
+// scheduling points are no-ops and `go` statements of rewritten code run their
+// function inline, to completion, at the point of the statement. It is meant for
+// deterministic sequential prefixes in Scenario.Setup whose code spawns
+// goroutines (a Point in Setup with a registered thread would otherwise hand
+// control to a driver that is not running yet). Blocking inside f is a harness
+// error and panics. (Added for C16; existing behaviour is unchanged when unused.)
+func (x *Exec) Sequential(f func()) {
+	old := x.seq
+	x.seq = true
+	defer func() { x.seq = old }()
+	f()
 }
 
 type abortT struct{}
@@ -213,7 +228,7 @@ func (x *Exec) drive() {
 
 // Point is a scheduling point of the running thread.
 func (x *Exec) Point(label string) {
-	if x.aborted {
+	if x.aborted || x.seq {
 		return
 	}
 	t := x.cur
@@ -229,6 +244,9 @@ func (x *Exec) Point(label string) {
 func (x *Exec) Block(obj any, label string) {
 	if x.aborted {
 		return
+	}
+	if x.seq {
+		panic("sched: Block(" + label + ") inside Sequential: the sequential prefix would deadlock")
 	}
 	t := x.cur
 	t.blocked = obj
@@ -247,6 +265,10 @@ func (x *Exec) Wake(obj any) {
 
 // Go spawns a logical thread from instrumented code.
 func (x *Exec) Go(name string, f func()) {
+	if x.seq {
+		f()
+		return
+	}
 	x.Thread(name, f)
 	x.Point("go")
 }
